@@ -3,6 +3,7 @@
 package spynode
 
 import (
+	"sync"
 	"context"
 	"fmt"
 	"regexp"
@@ -22,7 +23,7 @@ import (
 // ---- C19 (L1): Stop always terminates, persists, silences handlers ---------------------------------------
 
 var c19Points = []string{"refused", "silent", "header-sync", "blocks-outstanding", "inside-process-block",
-	"consumer-exit-full-channel", "in-sync-traffic", "between-shutdown-phases", "reconnect-loop", "lost-connection-resume"}
+	"consumer-exit-full-channel", "in-sync-traffic", "between-shutdown-phases", "reconnect-loop", "lost-connection-resume", "tx-backlog"}
 
 var goroutineHdr = regexp.MustCompile(`(?m)^goroutine \d+ \[([^\]]+)\]:\n([^\n]+)\n`)
 
@@ -69,7 +70,7 @@ type c19Result struct {
 
 func TestVerif_C19(t *testing.T) {
 	rep := verifkit.NewReport("C19")
-	rep.Rule = "each case starts the real Node.Run against a scripted TCP peer and requests Stop at a generated point: connection refused, accepted-but-silent peer, during header sync of a 2100-block chain, with 10 block requests outstanding (peer withholds bodies), inside ProcessBlock (handler parked in HandleHeaders), after the tx consumer exited on an error with the tx channel full, in sync with transaction traffic, between the shutdown phases (hooks node.stop.* sleep), in the reconnect loop (peer closes every connection), after a lost connection was resumed. Oracle: Stop and Run return (else two goroutine dumps 3 s apart: identical blocked node goroutines = deadlock witness, otherwise inconclusive), no handler callback after Stop returned, a fresh node on the storage loads the stopped node's chain and unconfirmed set, a peers file exists, and after a lost connection no (height, hash) is announced twice. Non-trivial = every case; distinct by (stop point, delay class, outcome)"
+	rep.Rule = "each case starts the real Node.Run against a scripted TCP peer and requests Stop at a generated point: connection refused, accepted-but-silent peer, during header sync of a 2100-block chain, with 10 block requests outstanding (peer withholds bodies), inside ProcessBlock (handler parked in HandleHeaders until Stop has returned, at most 1.5 s), after the tx consumer exited on an error with the tx channel full, in sync with transaction traffic, with a backlog of transactions behind a slow handler, between the shutdown phases (hooks node.stop.* sleep), in the reconnect loop (peer closes every connection), after a lost connection was resumed. Oracle: Stop and Run return (else two goroutine dumps 3 s apart: identical blocked node goroutines = deadlock witness, otherwise inconclusive), no handler callback after Stop returned, a fresh node on the storage loads the stopped node's chain and unconfirmed set, a peers file exists, and after a lost connection no (height, hash) is announced twice. Non-trivial = every case; distinct by (stop point, delay class, outcome)"
 	rep.Assumptions = []string{"a stuck Stop is decided by the stable-deadlock signature of two goroutine dumps, not by the watchdog timer", "handler parking is bounded (300 ms) so that Stop can return"}
 	defer rep.Write()
 
@@ -145,10 +146,19 @@ func c19Case(rep *verifkit.Report, ci int, point string, delayMS int, seed int64
 	}
 	e := newL1(peer, addr, store, tip.Ancestor(startAt).Hash, [][]byte{sub}, uni, nil)
 	var parked int32
+	release := make(chan struct{}) // closed once Stop has returned (or its watchdog fired)
+	var releaseOnce sync.Once
+	defer releaseOnce.Do(func() { close(release) })
 	if point == "inside-process-block" {
 		e.log.onEvent = func(ev recEvent) {
 			if ev.Kind == "headers" && ev.Handler == 0 && ev.Height >= 6 && atomic.CompareAndSwapInt32(&parked, 0, 1) {
-				time.Sleep(300 * time.Millisecond) // parked inside ProcessBlock (unconfirmed lock held)
+				// parked inside ProcessBlock (unconfirmed lock held) until Stop has returned, at
+				// most 1.5 s: a Stop that does not wait for the block processor returns while
+				// this handler is still parked, and the rest of the block is delivered afterwards
+				select {
+				case <-release:
+				case <-time.After(1500 * time.Millisecond):
+				}
 			}
 		}
 	}
@@ -219,6 +229,30 @@ func c19Case(rep *verifkit.Report, ci int, point string, delayMS int, seed int64
 		e.fetch.fail = true
 		e.fetch.mu.Unlock()
 		time.Sleep(time.Duration(200+delayMS) * time.Millisecond)
+	case "tx-backlog":
+		// a slow application handler with a backlog of relevant transactions behind it
+		if !waitCond(4*time.Second, inSync) {
+			rep.Inconc(ci, "node did not get in sync")
+		}
+		e.log.mu.Lock()
+		e.log.onEvent = func(ev recEvent) {
+			if ev.Kind == "tx" && ev.Handler == 0 {
+				time.Sleep(120 * time.Millisecond)
+			}
+		}
+		e.log.mu.Unlock()
+		for i := 0; i < 10; i++ {
+			sendToNode(mkTx())
+		}
+		waitCond(3*time.Second, func() bool {
+			for _, ev := range e.log.snapshot() {
+				if ev.Kind == "tx" {
+					return true
+				}
+			}
+			return false
+		})
+		time.Sleep(time.Duration(delayMS/4) * time.Millisecond)
 	case "in-sync-traffic", "between-shutdown-phases":
 		if !waitCond(4*time.Second, inSync) {
 			rep.Inconc(ci, "node did not get in sync")
@@ -281,6 +315,7 @@ func c19Case(rep *verifkit.Report, ci int, point string, delayMS int, seed int64
 
 	// ---- stop
 	ok, took := e.stop(12 * time.Second)
+	releaseOnce.Do(func() { close(release) })
 	res.stopped, res.stopTook = ok, took
 	if !ok {
 		d1 := nodeGoroutines()
@@ -310,6 +345,9 @@ func c19Case(rep *verifkit.Report, ci int, point string, delayMS int, seed int64
 	}
 	// ---- after stop: silence
 	time.Sleep(250 * time.Millisecond)
+	if point == "tx-backlog" || point == "inside-process-block" {
+		time.Sleep(900 * time.Millisecond) // work that was in flight at the stop would surface by now
+	}
 	if late := atomic.LoadInt32(&e.log.afterStop); late > 0 {
 		rep.Finding(ci, "C19/callback-after-stop/"+point, fmt.Sprintf("%d handler callbacks after Stop had returned", late), map[string]interface{}{"callbacks": e.log.strings(0)})
 	}
